@@ -152,20 +152,34 @@ def explore_lines(cx, n):
                 "Translate": ("1", "2", "3", "0"), "SetTolerance": ("0.01", "0", "0", "0"), "Simplify": ("0.01", "0", "0", "0"),
                 "Circle": ("1", "0", "0", "8"), "Square": ("1", "2", "0", "0"), "Offset": ("0.1", "2", "0", "4"),
                 "SmoothByNormals": ("0", "0", "0", "0"), "CalculateCurvature": ("0", "0", "0", "1"), "CalculateNormals": ("60", "0", "0", "0"),
-                "GetMeshGL": ("0", "0", "0", "0")}
+                "GetMeshGL": ("0", "0", "0", "0"), "SetPropertiesN": ("0", "0", "0", "1"), "SetPropertiesNull": ("0", "0", "0", "3"),
+                "ReserveIDs": ("0", "0", "0", "1"), "MinGap": ("0.5", "2", "0", "0"), "RayCast": ("3", "0.1", "0.2", "0"),
+                "SliceProject": ("0.2", "0", "0", "0")}
     used = {"Cube": [0, 1, 2], "Cylinder": [0, 1, 2, 3], "Sphere": [0, 3], "Extrude": [0, 1, 2, 3], "Revolve": [0, 3], "Refine": [3],
             "RefineToLength": [0], "RefineToTolerance": [0], "LevelSet": [0, 1, 2], "Scale": [0, 1, 2], "Rotate": [0, 1, 2],
             "Translate": [0, 1, 2], "SetTolerance": [0], "Simplify": [0], "Circle": [0, 3], "Square": [0, 1], "Offset": [0, 1, 3],
-            "SmoothByNormals": [3], "CalculateCurvature": [3], "CalculateNormals": [0, 3], "GetMeshGL": [3]}
+            "SmoothByNormals": [3], "CalculateCurvature": [3], "CalculateNormals": [0, 3], "GetMeshGL": [3], "SetPropertiesN": [3], "SetPropertiesNull": [3], "ReserveIDs": [3],
+            "MinGap": [0, 1], "RayCast": [0, 1, 2], "SliceProject": [0]}
     ints = ["0", "-1", "1", "2", "3", "4", "7", "-2147483648", "100", "nan"]
     for what in sorted(defaults):
         for pos in used[what]:
             vals = ints if pos == 3 else special
+            if what == "ReserveIDs":
+                vals = ["0", "1", "2", "4294967295", "4294967296", "-1", "2147483648"]
+            if what in ("SetPropertiesN", "SetPropertiesNull"):
+                vals = ["0", "1", "2", "3", "4", "7", "-1", "-2147483648", "100"]
             if what == "Refine":
                 vals = ["0", "-1", "1", "2", "3", "-2147483648", "2147483647", "100000", "nan"]
             for v in vals:
                 args = list(defaults[what]); args[pos] = v
                 out.append(("N%d" % cid, "N N%d %s %s %s %s %s" % (cid, what, args[0], args[1], args[2], args[3]))); cid += 1
+    # Smooth(mesh, sharpenedEdges): halfedge index (size_t) and smoothness, all four entry points; the source mesh has 48 halfedges
+    for variant in (0, 1, 2, 3):
+        for he in ("0", "5", "47", "48", "49", "1000000", "2147483647", "2147483648", "3221225472", "4294967295", "4294967296",
+                   "1099511627776", "18446744073709551615", "18446744073709551614", "9223372036854775808"):
+            out.append(("S%d" % cid, "S S%d %d %s 0.5" % (cid, variant, he))); cid += 1
+        for sm in ("nan", "inf", "-inf", "-1", "2", "0", "1", "1e308"):
+            out.append(("S%d" % cid, "S S%d %d 5 %s" % (cid, variant, sm))); cid += 1
     for fixed in ("1e-6 0", "1e-6 1 0", "1e-6 2 0 0", "0 1 1 0.5 0.5", "-1 1 2 0 0 1 1", "-1 1 3 0 0 1 0 0 1", "-1 1 3 nan 0 1 0 0 1",
                   "-1 1 4 0 0 1 0 1 1 0 1", "-1 2 4 0 0 3 0 3 3 0 3 4 1 1 1 2 2 2 2 1", "inf 1 3 0 0 1 0 0 1", "nan 1 3 0 0 1 0 0 1",
                   "-1 1 4 0 0 0 0 0 0 0 0", "-1 1 4 0 0 1 1 0 1 1 0", "-1 1 3 1e308 0 -1e308 0 0 1e308"):
@@ -447,11 +461,11 @@ def run(cx):
     ko2 = lambda l: l.split()[1] if l.startswith("O ") else None
     eo = ""
     ecr = []
-    for l, rc1, out1, err1 in run_isolated(exe, [l for _, l in ex if l.startswith("N ")]):
+    for l, rc1, out1, err1 in run_isolated(exe, [l for _, l in ex if l.startswith("N ") or l.startswith("S ")]):
         eo += out1
         if rc1 != 0:
             ecr.append((l, rc1, err1))
-    o2, c2 = vp.run_cases(exe, [l for _, l in ex if not l.startswith("N ")], kl2, ko2, timeout=1500, max_restarts=40, env=env)
+    o2, c2 = vp.run_cases(exe, [l for _, l in ex if not (l.startswith("N ") or l.startswith("S "))], kl2, ko2, timeout=1500, max_restarts=40, env=env)
     eo += o2
     for cl, rc1, err1 in c2:           # confirm every batch failure alone, with the full report
         if cl.startswith("<"):
@@ -466,13 +480,15 @@ def run(cx):
         if rc1 == 124:
             continue        # wall-clock timeout of the runner (machine load); the CPU-time watchdog (SIGPROF, rc -27) decides hangs
         kind = cl.split()[0]
-        what = cl.split()[2] if kind == "N" else {"P": "polygons", "H": "hull-points", "B": "obj-text"}.get(kind, kind)
-        args = "_".join(cl.split()[3:7]) if kind == "N" else "case_" + cl.split()[1]
-        ekeys.setdefault("explore-%s:%s@%s" % (what, crash_site(err1), args if kind == "N" else ""), []).append((cl, rc1, err1))
+        what = cl.split()[2] if kind == "N" else {"P": "polygons", "H": "hull-points", "B": "obj-text", "S": "Smooth"}.get(kind, kind)
+        args = "_".join(cl.split()[3:7]) if kind == "N" else ("_".join(cl.split()[2:5]) if kind == "S" else "")
+        # one key per (entry point, crash site); the argument tuples are listed in the description and the replay
+        ekeys.setdefault("explore-%s:%s" % (what, crash_site(err1)), []).append((cl, rc1, err1))
     for key, lst in sorted(ekeys.items()):
         cl, rc1, err1 = lst[0]
         frames = [f.strip() for f in re.findall(r"(/repo/[^\n]*runtime error[^\n]*|#\d+ 0x[0-9a-f]+ in [^\n]*/src/[^\n]*)", err1)][:2]
-        cx.violation(key, "%d argument value(s) made the implementation die or hang (first: rc=%s %s %s)" % (len(lst), rc1, san_summary(err1), "; ".join(frames)[:300]),
+        argl = [" ".join(c.split()[2:7]) for c, _, _ in lst[:8]]
+        cx.violation(key, "%d argument tuple(s) made the implementation die or hang: %s (first: rc=%s %s %s)" % (len(lst), "; ".join(argl)[:400], rc1, san_summary(err1), "; ".join(frames)[:200]),
                      {"case": cl, "all_cases": [c for c, _, _ in lst][:20]})
     nexp = 0
     for l in eo.splitlines():
@@ -486,6 +502,16 @@ def run(cx):
                    "distribution": dist, "correspondence_mismatches": mism, "records": len(recs), "records_run_in_batch": len(impl),
                    "predicted_oob_run_isolated": len(todo), "predicted_oob_by_key": predicted, "confirmed_by_sanitizer": sorted(confirmed),
                    "program_steps_on_errored_objects": stats["error_steps"], "error_code_changed_but_still_error": stats["error_code_changed"],
-                   "exploration_cases": nexp, "exploration": "numeric ctor args / polygons / hull points / OBJ text: sanitizer verdict + 10 s watchdog + error-or-usable only"})
+                   "exploration_cases": nexp,
+                   "arguments_swept": {
+                       "Cube": "size x/y/z", "Cylinder": "height, radiusLow, radiusHigh, circularSegments", "Sphere": "radius, circularSegments",
+                       "Extrude": "height, twistDegrees, scaleTop, nDivisions + polygon coordinates", "Revolve": "revolveDegrees, circularSegments + polygon coordinates",
+                       "Refine": "n (incl. 100000, INT_MAX)", "RefineToLength": "length", "RefineToTolerance": "tolerance", "LevelSet": "edgeLength, bounds, level",
+                       "Scale/Rotate/Translate": "all components", "SetTolerance/Simplify": "tolerance", "CrossSection::Circle/Square/Offset": "radius, segments, size, delta, miterLimit",
+                       "SmoothByNormals/CalculateNormals/CalculateCurvature/GetMeshGL": "property / normal channel index", "SetProperties": "numProp (with and without a callback)",
+                       "ReserveIDs": "count", "MinGap": "searchLength, distance", "RayCast/WindingNumber": "origin, endpoint, query point", "Slice": "height",
+                       "Smooth (MeshGL, MeshGL64, ExecutionContext::Smooth x2)": "sharpenedEdges halfedge index (0..SIZE_MAX incl. 2^31, 3*2^30, 2^32, 2^40, 2^63) and smoothness",
+                       "Triangulate/CrossSection/Hull/ReadOBJ": "coordinates, epsilon, text (random + fixed)",
+                       "not swept": "Warp/WarpBatch/SetProperties callbacks writing out of range (documented undefined), sdf callbacks returning NaN"}, "exploration": "numeric ctor args / polygons / hull points / OBJ text: sanitizer verdict + 10 s watchdog + error-or-usable only"})
     for cid in (safe_ids[40:41] + oob_ids[:1] + safe_ids[300:301]):
         cx.sample({"mutation": tags[cid], "case": lines[cid][:300], "model": pred.get(cid), "impl": impl.get(cid, ("died/isolated",))[:2]})
